@@ -186,6 +186,7 @@ int main(int argc, char **argv) {
     std::string mode, prop, tierS = "quick", out, replayDir = ".", replayFile;
     uint64_t seed = 1; int cases = 100, maxSize = 100;
     int shard = 0, nshards = 1, preempt = 2; long maxRuns = 2000000;
+    size_t firstN = 0; int firstK = 0;   // the first N programs of the space are explored with bound K instead of `preempt`
     std::vector<std::string> known, foreign;
     for (int i = 1; i < argc; ++i) {
         std::string a = argv[i];
@@ -195,6 +196,7 @@ int main(int argc, char **argv) {
         else if (a == "--nshards") nshards = atoi(next().c_str());
         else if (a == "--preempt") preempt = atoi(next().c_str());
         else if (a == "--max-runs") maxRuns = atol(next().c_str());
+        else if (a == "--preempt-first") { std::string v = next(); size_t c = v.find(':'); firstN = strtoul(v.c_str(), nullptr, 10); firstK = c == std::string::npos ? preempt : atoi(v.c_str() + c + 1); }
         else if (a == "--replay") { mode = a; replayFile = next(); }
         else if (a == "--prop") prop = next();
         else if (a == "--tier") tierS = next();
@@ -262,7 +264,7 @@ int main(int argc, char **argv) {
                 }
                 for (auto &kv : o.labels) labels[kv.first] += kv.second;
                 if (o.nt) { ++ntRuns; std::string text = render(c); if (ntHashes.insert(fnv1a(text)).second && samples.size() < 3) samples.push_back(text); }
-                if (nd.used >= preempt) continue;
+                if (nd.used >= (pi < firstN ? firstK : preempt)) continue;
                 // children: change one later default choice to a non-default alternative
                 const std::string &w = o.aux;   // "W" followed by one digit per consumed choice
                 for (size_t j = nd.prefix.size(); j + 1 < w.size() + 0 && j < 4096; ++j) {
@@ -279,7 +281,7 @@ int main(int argc, char **argv) {
         if (!out.empty()) {
             std::ofstream j(out);
             j << "{\n \"prop\": \"" << prop << "\", \"mode\": \"enumerate\", \"wall_s\": " << wall << ", \"programs\": " << programs << ", \"program_space\": " << es->second.count
-              << ", \"runs\": " << runs << ", \"preemption_bound\": " << preempt << ", \"capped\": " << (capped ? "true" : "false") << ", \"nt_runs\": " << ntRuns
+              << ", \"runs\": " << runs << ", \"preemption_bound\": " << preempt << ", \"first_n\": " << firstN << ", \"first_k\": " << firstK << ", \"capped\": " << (capped ? "true" : "false") << ", \"nt_runs\": " << ntRuns
               << ", \"timeouts\": " << timeouts << ", \"internal\": " << internal << ", \"known_hits\": " << knownHits << ", \"foreign_hits\": " << foreignHits << ",\n \"nt_hashes\": [";
             { bool first = true; for (uint64_t h : ntHashes) { j << (first ? "" : ",") << "\"" << std::hex << h << std::dec << "\""; first = false; } }
             j << "],\n \"samples\": [";
